@@ -28,6 +28,34 @@ func (f *Frame) fieldLV(base Val, ptrT types.Type, fi int) Val {
 	return res
 }
 
+// zeroGhosts: ghost fields of a new object (and of the structs embedded in
+// it) start at zero, except prophecy streams, which are arbitrary until chosen.
+func (f *Frame) zeroGhosts(st *State, ref string, t types.Type, depth int) {
+	e := f.e
+	s, ok := t.Underlying().(*types.Struct)
+	if !ok || depth > 3 {
+		return
+	}
+	sn := structName(t)
+	for _, g := range e.db.Ghosts {
+		if (g.Struct == sn || "websocket."+g.Struct == sn) && g.Type != "stream" {
+			h := e.ghostHeap(sn, g)
+			z := "0"
+			if h.elem == "Bool" {
+				z = "false"
+			} else if h.elem != "Int" {
+				continue
+			}
+			e.setHeap(st, h, sx("store", e.heapTerm(st, h), ref, z))
+		}
+	}
+	for i := 0; i < s.NumFields(); i++ {
+		if _, isS := s.Field(i).Type().Underlying().(*types.Struct); isS {
+			f.zeroGhosts(st, e.fid(ref, e.fieldOrdinal(sn, s.Field(i).Name())), s.Field(i).Type(), depth+1)
+		}
+	}
+}
+
 func (f *Frame) execInstr(in ssa.Instruction, reach string, st *State) string {
 	e := f.e
 	switch x := in.(type) {
@@ -47,6 +75,7 @@ func (f *Frame) execInstr(in ssa.Instruction, reach string, st *State) string {
 			}
 		}
 		e.storePtr(st, p, pt.Elem(), e.zeroVal(pt.Elem()))
+		f.zeroGhosts(st, ref, pt.Elem(), 0)
 	case *ssa.BinOp:
 		a, b := f.val(x.X), f.val(x.Y)
 		if a.Addr != nil && x.Op == token.ADD {
@@ -95,6 +124,7 @@ func (f *Frame) execInstr(in ssa.Instruction, reach string, st *State) string {
 	case *ssa.FieldAddr:
 		base := f.val(x.X)
 		f.vals[x] = f.fieldLV(base, x.X.Type(), x.Field)
+		f.ownerObl(x, base, reach, st)
 	case *ssa.IndexAddr:
 		f.execIndexAddr(x, reach, st)
 	case *ssa.Index:
@@ -561,7 +591,9 @@ func (f *Frame) mapVer(st *State, ref string) string {
 func (f *Frame) mapInit(st *State, ref string, t types.Type) {
 	e := f.e
 	h := e.heap("G!mapver", "Int", false)
-	e.setHeap(st, h, sx("store", e.heapTerm(st, h), ref, "0"))
+	nv := e.fresh("mapver", "Int")
+	e.setHeap(st, h, sx("store", e.heapTerm(st, h), ref, nv))
+	e.mapUpds = append(e.mapUpds, mapUpd{m: ref, newVer: nv, empty: true})
 	hl := e.heap("G!maplen", e.idxSort(), false)
 	e.setHeap(st, hl, sx("store", e.heapTerm(st, hl), ref, e.idxLit(0)))
 }
@@ -587,6 +619,17 @@ func (f *Frame) mapKeyTerm(k Val) string {
 	return sx(name, k.C...)
 }
 
+type mapUpd struct {
+	m, newVer, prevVer string
+	key, val           Val
+	deleted            bool
+	empty              bool // a freshly made map: no key is present at newVer
+}
+
+// mapLookup: the value stored under key in map m at its current version.
+// Updates made in this activation are followed back (the new version maps the
+// written key to the written value and every other key to what the previous
+// version had); beyond them the contents are uninterpreted.
 func (f *Frame) mapLookup(st *State, m Val, key Val, vt types.Type) (Val, string) {
 	e := f.e
 	kt := f.mapKeyTerm(key)
@@ -594,17 +637,99 @@ func (f *Frame) mapLookup(st *State, m Val, key Val, vt types.Type) (Val, string
 		e.declared[kt] = true
 		e.pre.decls.WriteString("(declare-const " + kt + " Int)\n")
 	}
-	ver := f.mapVer(st, m.C[0])
 	tk := typeKey(vt)
 	okf := "map.has." + tk
 	e.declFun(okf, "(Int Int Int) Bool")
-	ok := and(not(eq(m.C[0], "0")), sx(okf, m.C[0], ver, kt))
-	r := Val{T: vt}
+	sorts := e.layout(vt)
 	z := e.zeroVal(vt)
-	for i, s := range e.layout(vt) {
-		fn := fmt.Sprintf("map.get.%s.%d", tk, i)
-		e.declFun(fn, "(Int Int Int) "+s)
-		r.C = append(r.C, ite(ok, sx(fn, m.C[0], ver, kt), z.C[i]))
+	base := func(ver string) (Val, string) {
+		r := Val{T: vt}
+		for i, so := range sorts {
+			fn := fmt.Sprintf("map.get.%s.%d", tk, i)
+			e.declFun(fn, "(Int Int Int) "+so)
+			r.C = append(r.C, sx(fn, m.C[0], ver, kt))
+		}
+		return r, sx(okf, m.C[0], ver, kt)
+	}
+	type memo struct {
+		v  Val
+		ok string
+	}
+	seen := map[string]memo{}
+	var look func(ver string, n int) (Val, string)
+	look = func(ver string, n int) (Val, string) {
+		if n == 0 {
+			return base(ver)
+		}
+		mk := fmt.Sprintf("%s|%d", ver, n)
+		if r, ok := seen[mk]; ok {
+			return r.v, r.ok
+		}
+		R := e.mapUpds[n-1]
+		if R.empty {
+			hit := and(eq(m.C[0], R.m), eq(ver, R.newVer))
+			ov, ook := look(ver, n-1)
+			r := Val{T: vt}
+			for i := range sorts {
+				r.C = append(r.C, ite(hit, z.C[i], ov.C[i]))
+			}
+			okt := ite(hit, "false", ook)
+			seen[mk] = memo{r, okt}
+			return r, okt
+		}
+		if len(R.val.C) != len(sorts) && !R.deleted {
+			v, ok := look(ver, n-1)
+			seen[mk] = memo{v, ok}
+			return v, ok
+		}
+		hit := and(eq(m.C[0], R.m), eq(ver, R.newVer))
+		var keq string
+		if isStringType(key.T) && isStringType(R.key.T) {
+			keq = e.stringEq(key, R.key)
+		} else if len(key.C) == len(R.key.C) {
+			var ps []string
+			for i := range key.C {
+				ps = append(ps, eq(key.C[i], R.key.C[i]))
+			}
+			keq = and(ps...)
+		} else {
+			keq = "false"
+		}
+		pv, pok := look(R.prevVer, n-1)
+		ov, ook := look(ver, n-1)
+		r := Val{T: vt}
+		for i, so := range sorts {
+			wv := z.C[i]
+			if !R.deleted {
+				wv = R.val.C[i]
+			}
+			t := ite(hit, ite(keq, wv, pv.C[i]), ov.C[i])
+			if len(t) > 40 {
+				n2 := e.fresh("mapget", so)
+				e.pre.asserts.WriteString("(assert (= " + n2 + " " + t + "))\n")
+				t = n2
+			}
+			r.C = append(r.C, t)
+		}
+		has := "true"
+		if R.deleted {
+			has = "false"
+		}
+		okt := ite(hit, ite(keq, has, pok), ook)
+		if len(okt) > 40 {
+			n2 := e.fresh("maphas", "Bool")
+			e.pre.asserts.WriteString("(assert (= " + n2 + " " + okt + "))\n")
+			okt = n2
+		}
+		seen[mk] = memo{r, okt}
+		return r, okt
+	}
+	ver := f.mapVer(st, m.C[0])
+	v, ok := look(ver, len(e.mapUpds))
+	ok = and(not(eq(m.C[0], "0")), ok)
+	r := Val{T: vt}
+	for i := range v.C {
+		r.C = append(r.C, ite(ok, v.C[i], z.C[i]))
 	}
 	return r, ok
 }
@@ -658,21 +783,13 @@ func (f *Frame) execMapUpdate(x *ssa.MapUpdate, reach string, st *State) {
 	e := f.e
 	m := f.val(x.Map)
 	f.safety("nilmap", reach, not(eq(m.C[0], "0")))
-	mt := x.Map.Type().Underlying().(*types.Map)
-	oldVer := f.mapVer(st, m.C[0])
+	oldVer := e.fresh("mapver.old", "Int")
+	e.assume("true", eq(oldVer, f.mapVer(st, m.C[0])))
 	h := e.heap("G!mapver", "Int", false)
 	nv := e.fresh("mapver", "Int")
 	e.assume("true", not(eq(nv, oldVer)))
 	e.setHeap(st, h, sx("store", e.heapTerm(st, h), m.C[0], nv))
-	// the written key now maps to the written value
-	got, ok := f.mapLookup(st, m, f.val(x.Key), mt.Elem())
-	val := f.val(x.Value)
-	facts := []string{ok}
-	for i := range got.C {
-		// got.C[i] is ite(ok, get, zero): constrain the get term
-		facts = append(facts, eq(got.C[i], val.C[i]))
-	}
-	e.assume(reach, and(facts...))
+	e.mapUpds = append(e.mapUpds, mapUpd{m: m.C[0], newVer: nv, prevVer: oldVer, key: f.val(x.Key), val: f.val(x.Value)})
 }
 
 func (f *Frame) execNext(x *ssa.Next, reach string, st *State) {
@@ -692,7 +809,57 @@ func (f *Frame) execNext(x *ssa.Next, reach string, st *State) {
 	}
 	// layout of the tuple must match; invalid components have no layout
 	f.vals[x] = r
+	f.mapUseAt(x, reach, st)
 }
+
+// mapAllFact: the uninterpreted fact "every key of map m (at its current
+// version) satisfies the property <label>".
+func (f *Frame) mapAllFact(label string, m Val, st *State) string {
+	e := f.e
+	name := "mapall." + sanitize(label)
+	e.declFun(name, "(Int Int) Bool")
+	return sx(name, m.C[0], f.mapVer(st, m.C[0]))
+}
+
+func (f *Frame) loopOfBlock(b *ssa.BasicBlock) *loopInfo {
+	var best *loopInfo
+	for _, li := range f.loops {
+		if li.blocks[b] && (best == nil || len(li.blocks) < len(best.blocks)) {
+			best = li
+		}
+	}
+	return best
+}
+
+// mapUseAt: `loop N mapuse L` - the key yielded by this Next satisfies P_L if
+// the all-keys fact of L holds for the ranged map.
+func (f *Frame) mapUseAt(x *ssa.Next, reach string, st *State) {
+	if f.fc == nil || x.IsString {
+		return
+	}
+	li := f.loopOfBlock(x.Block())
+	if li == nil {
+		return
+	}
+	label, ok := f.fc.MapUse[li.ord]
+	if !ok {
+		return
+	}
+	var cl *Clause
+	for _, c := range f.fc.MapAll {
+		if c.Label == label {
+			cl = c
+		}
+	}
+	rng, isR := x.Iter.(*ssa.Range)
+	if cl == nil || !isR {
+		f.e.fail(f, fmt.Errorf("mapuse %s: no matching mapall / not a map range", label))
+		return
+	}
+	m := f.val(rng.X)
+	f.pendingMapUse = append(f.pendingMapUse, pendingUse{next: x, clause: cl, fact: f.mapAllFact(label, m, st)})
+}
+
 
 // ---------------------------------------------------------------------------
 // Channels: only the mutex idiom (cap 1 channel of struct{}) is modelled.
